@@ -357,6 +357,17 @@ func (e *wireExec) construct(i int, ts TokSpec) {
 	if !bytes.Equal(c.Bytes(), harnessCID(w.cbor)) {
 		o.Violate("C08", "seal-cid", "ToSealed CID is not the hash of the sealed bytes", nil)
 	}
+	// streaming seal: same bytes, same CID
+	reseed(e.t, e.seed, fmt.Sprint("seal", i))
+	sw := newSimWriter(WriteFault{})
+	var wc cid.Cid
+	if !guard(o, "ToSealedWriter", func() { wc, err = obj.ToSealedWriter(sw, ent.priv) }) && err == nil {
+		o.Eval("C08")
+		o.Sig("C08", "seal", "stream-vs-buffer", ts.Kind, len(w.cbor) > 4096)
+		if !bytes.Equal(sw.Bytes(), w.cbor) || !bytes.Equal(wc.Bytes(), harnessCID(sw.Bytes())) {
+			o.Violate("C08", "stream-seal-cid", fmt.Sprintf("ToSealedWriter of a %d-byte token: bytes equal to ToSealed: %v, CID is the hash of the bytes written: %v", len(w.cbor), bytes.Equal(sw.Bytes(), w.cbor), bytes.Equal(wc.Bytes(), harnessCID(sw.Bytes()))), nil)
+		}
+	}
 	reseed(e.t, e.seed, fmt.Sprint("seal", i))
 	if guard(o, "ToDagJson", func() { w.json, err = obj.ToDagJson(ent.priv) }) {
 		return
@@ -779,6 +790,8 @@ func (e *wireExec) step(s *XStep) {
 		e.sigStep(s, w, env)
 	case "field":
 		e.fieldStep(s, w, env)
+	case "jsonfield":
+		e.jsonFieldStep(s, w)
 	case "reencode":
 		e.reencodeStep(s, w, env)
 	case "byz":
@@ -1123,6 +1136,79 @@ func (e *wireExec) fieldStep(s *XStep, w *wireTok, env *envelope) {
 	o.Fault("field_rewrite")
 	o.Sig("C06", w.spec.Kind, w.alg, "cbor", "field:"+f+":"+s.How, len(acc) > 0)
 	e.conservation(acc, w, data, "field rewrite with the old signature", f+" "+s.How, "cbor")
+}
+
+// jsonFieldStep: the DAG-JSON form of a token taken apart as plain JSON, fields rewritten,
+// set to null or added as explicit nulls, signature untouched.
+func (e *wireExec) jsonFieldStep(s *XStep, w *wireTok) {
+	o := e.o
+	if w.json == nil {
+		return
+	}
+	dec := json.NewDecoder(bytes.NewReader(w.json))
+	dec.UseNumber()
+	var root []any
+	if err := dec.Decode(&root); err != nil || len(root) != 2 {
+		return
+	}
+	sp, ok := root[1].(map[string]any)
+	if !ok {
+		return
+	}
+	var pl map[string]any
+	for k, v := range sp {
+		if strings.HasPrefix(k, "ucan/") {
+			pl, _ = v.(map[string]any)
+		}
+	}
+	if pl == nil {
+		return
+	}
+	other := e.cast.ent(w.spec.iss() + 1 + s.Val%3).id.String()
+	rewrite := func(f string) {
+		switch f {
+		case "cmd":
+			pl["cmd"] = "/"
+		case "iss", "aud", "sub":
+			pl[f] = other
+		case "nonce":
+			pl["nonce"] = map[string]any{"/": map[string]any{"bytes": "AAAAAAAAAAAAAAAAAAAA"}}
+		case "meta":
+			pl["meta"] = map[string]any{"forged": json.Number(fmt.Sprint(s.Val))}
+		case "args":
+			pl["args"] = map[string]any{"n": json.Number(fmt.Sprint(s.Val))}
+		case "pol":
+			pl["pol"] = []any{}
+		case "prf":
+			pl["prf"] = []any{}
+		case "exp", "nbf", "iat":
+			pl[f] = json.Number(fmt.Sprint(4102444800 + s.Val))
+		}
+	}
+	desc := s.Field + " " + s.How
+	switch s.How {
+	case "null": // the field itself becomes an explicit null
+		pl[s.Field] = nil
+	case "rewrite":
+		rewrite(s.Field)
+	case "rewrite+null": // a field rewritten, and ANOTHER optional field present as an explicit null
+		rewrite(s.Field)
+		opt := []string{"cause", "aud", "meta", "iat", "nonce", "sub", "nbf"}[s.At%7]
+		if opt != s.Field {
+			pl[opt] = nil
+		}
+		desc += " (" + opt + " null)"
+	default:
+		return
+	}
+	data, err := json.Marshal(root)
+	if err != nil || bytes.Equal(data, w.json) {
+		return
+	}
+	acc := e.offer(data, "json", w.spec.Kind, false, false)
+	o.Fault("json_field_rewrite")
+	o.Sig("C06", w.spec.Kind, w.alg, "json", "jsonfield:"+s.Field+":"+s.How, len(acc) > 0)
+	e.conservation(acc, w, data, "DAG-JSON field rewrite with the old signature", desc, "json")
 }
 
 func openEnvelopeTree(root *CB) (*envelope, error) {
